@@ -10,7 +10,7 @@ RULE = ('random configurations (world 1–8, every divisor k, colocate, method, 
         'levels); per-rank traces of (kind, members, element count, element size, root) issues and of every '
         'future wait are compared exactly, in order, with the projection of the Lean global script; the trace '
         'matcher oracle checks matching/membership/roots/new_group order/stalls directly; non-trivial = world>1 and ≥2 steps'
-        '; further input dimensions: launcher environment of a multi-node job (LOCAL_RANK ≠ rank), a loss overflowing on a strict subset of ranks (value independence), bfloat16 second-order data, nested module names, tensors kept alive between iterations')
+        '; further input dimensions: layers of two dtypes in one bucket (trace matcher only), no-hook factor updates that find no new batch statistics (eval iteration, reset, repeated step), launcher environment of a multi-node job (LOCAL_RANK ≠ rank), a loss overflowing on a strict subset of ranks (value independence), bfloat16 second-order data, nested module names, tensors kept alive between iterations')
 TRUSTED = [
     'Lean 4.33 kernel; axioms audited ⊆ {propext, Classical.choice, Quot.sound}',
     'hand-written models KV.Precond (K-FAC state machine emitting the global script) and KV.Sched2 (collective semantics) '
@@ -62,6 +62,17 @@ def gen_cfgs(ctx, n):
         if rng.random() < 0.5:
             cfg.ops += ['l11'] + ['f1'] * cfg.accum + ['s']
         cfgs.append(cfg)
+    # factor updates in step() that find no new batch statistics (eval-mode iteration, reset_batch() before step(), two steps
+    # in a row): every rank re-reduces the unchanged running averages, whichever rank still holds an unresolved future
+    for i in range(max(6, n // 12)):
+        world = rng.choice([2, 3, 4])
+        cfg = kfacsim.Config(rng, world=world, k=[1, world, rng.choice([k for k in range(1, world + 1) if world % k == 0])][i % 3],
+                             hook=False, accum=1)
+        cfg.hyper['factor_update_steps'] = rng.choice([1, 1, 2])
+        cfg.hyper['inv_update_steps'] = rng.choice([1, 1, 2, 3])
+        tail = [['s'], ['f0', 's'], ['f1', 'r', 's'], ['s', 's'], ['f0', 's', 'm', 's'], ['r', 's', 'f1', 's']]
+        cfg.ops = ['f1', 's'] + tail[i % len(tail)] + rng.choice([[], ['f1', 's'], ['s']])
+        cfgs.append(cfg)
     while len(cfgs) < n:
         cfg = kfacsim.Config(rng)
         whole = rng.random() < 0.8
@@ -86,8 +97,33 @@ def run(ctx):
                          dict(cfg.describe(), sched_seed=cfg.sched_seed), 'schedule-dependent')
                 break
         ctx.count('schedule-pairs')
+    mixed_dtype_stream(ctx)
     gloo_stream(ctx)
     neox_stream(ctx)
+
+
+def mixed_dtype_stream(ctx):
+    """models whose layers have different dtypes (float32 then float64, as under autocast): consecutive factors of one
+    bucket differ in dtype.  The Lean script has a single factor dtype, so these runs are judged by the trace matcher
+    (matching, stalls, exceptions) alone."""
+    rng = ctx.rng
+    for i in range(ctx.budget(8, 60)):
+        world = rng.choice([2, 3, 4])
+        cfg = kfacsim.Config(rng, world=world, nest=False, fac32=False, inv32=False,
+                             cap_mb=rng.choice([25.0, 25.0, 0.001, 0.0002, 0.0]))
+        if cfg.arch[0][0] != 'lin' or len(cfg.arch) < 2:
+            d = [rng.choice([2, 3, 4]) for _ in range(4)]
+            cfg.arch = [('lin', d[j], d[j + 1], rng.random() < 0.7) for j in range(3)]
+        cfg.mixdt = True
+        cfg.ops = (['f1'] * cfg.accum + ['s']) * rng.randrange(1, 4)
+        if rng.random() < 0.4:
+            cfg.ops += [rng.choice(['m', 'v1', 'l11'])] + ['f1'] * cfg.accum + ['s']
+        kfacsim.fix_loads(cfg)
+        cfg.sched_seed = ctx.seed * 733 + i
+        rr = kfacsim.run_real(cfg, sched_seed=cfg.sched_seed, stickiness=[0.0, 0.5, 0.9][cfg.sched_seed % 3])
+        kfacsim.oracle_trace(ctx, cfg, rr, key_prefix='mixed-dtype-trace')
+        ctx.case('mixdt' + str(cfg.key()), nontrivial=True, sample=dict(cfg.describe(), sched_seed=cfg.sched_seed))
+        ctx.count('mixed-dtype')
 
 
 def neox_stream(ctx):
